@@ -439,9 +439,31 @@ func runSocket(e *Env, hostile bool) {
 	s.Spawn("peer", func() {
 		defer func() { peerDone = true }()
 		var stream []byte
+		// systematic mode (a fifth of the hostile runs): every truncation length of one valid
+		// frame in a window of up to 60 consecutive lengths, with and without a corrected header
+		var sysBase []byte
+		sysFrom, sysFix := 0, false
+		if hostile && c.Kind != "tcp" && e.Choose("cfg.systematic", 5) == 0 {
+			sysBase = gen.valid(c.Kind == "router").raw
+			if len(sysBase) > 60 {
+				sysFrom = e.Choose("wl.sysfrom", len(sysBase)-59)
+			}
+			sysFix = e.Choose("wl.sysfix", 2) == 1
+			e.Probe("systematic-truncation-run")
+		}
 		for i := 0; i < c.Frames; i++ {
 			var f genFrame
 			switch {
+			case sysBase != nil:
+				l := sysFrom + i
+				if l > len(sysBase) {
+					l = len(sysBase)
+				}
+				b := append([]byte(nil), sysBase[:l]...)
+				if sysFix && len(b) >= 6 {
+					b[4], b[5] = byte(len(b)>>8), byte(len(b))
+				}
+				f = genFrame{raw: b, desc: fmt.Sprintf("truncated-to-%d", l)}
 			case !hostile:
 				f = gen.valid(c.Kind == "router")
 			case e.Choose("wl.hostile", 3) == 0:
